@@ -211,7 +211,7 @@ fn step(env: &Env, st: &mut Store, m: &mut MStore, op: &SOp, rep: &mut Report) -
                 let lr = if *noblock {
                     env.plan.slow_us.store(400, std::sync::atomic::Ordering::SeqCst);
                     match st.merge_external_noblock(*dest, lt, classes.as_deref(), *hist) {
-                        Ok(f) if (*dest + src.id) % 3 == 0 => {
+                        Ok(f) if dest.wrapping_add(src.id) % 3 == 0 => {
                             // fire and forget: the future is dropped at once, while the (slowed down) merge is still in
                             // flight; the merge must take effect all the same and the store must keep serving. A blocking
                             // lookup, which passes through every worker's queue, is the barrier before the state comparison.
@@ -330,8 +330,22 @@ fn gen_spec(rng: &mut Rng, id: u64) -> Spec {
     Spec { id, compat: 1 + rng.usize(2) as u8, obs }
 }
 
+thread_local! { static ID_SHAPE: std::cell::Cell<u8> = std::cell::Cell::new(0); }
+/// The logical ids 1..n of a sequence are mapped injectively onto the u64 range: small numbers, ids above 2^32
+/// (what new_track_random_id() hands out), ids with equal halves, hashed ids, ids near u64::MAX.
+fn mkid(x: u64) -> u64 {
+    match ID_SHAPE.with(|c| c.get()) {
+        1 => (1u64 << 32) + x,
+        2 => (x << 32) | x,
+        3 => x.wrapping_mul(0x9E37_79B9_7F4A_7C15),
+        4 => u64::MAX - x,
+        5 => x << 33,
+        _ => x,
+    }
+}
+
 fn gen_op(rng: &mut Rng, nids: u64) -> SOp {
-    let id = 1 + rng.below(nids);
+    let id = mkid(1 + rng.below(nids));
     let classes = |rng: &mut Rng| match rng.usize(4) {
         0 => None,
         1 => Some(vec![]),
@@ -345,10 +359,10 @@ fn gen_op(rng: &mut Rng, nids: u64) -> SOp {
             let upd = if rng.chance(0.6) { Some(WUpdate { delta: if rng.chance(0.05) { POISON } else { rng.range(0, 3) }, set_compat: if rng.chance(0.1) { Some(1 + rng.usize(2) as u8) } else { None } }) } else { None };
             SOp::Add { id, cls: rng.usize(3) as u64, oa, feat, upd }
         }
-        9 | 10 => SOp::Fetch((0..rng.usize(4)).map(|_| 1 + rng.below(nids)).collect()),
-        11..=13 => SOp::MergeOwned { dest: id, src: 1 + rng.below(nids), classes: classes(rng), remove: rng.chance(0.5), hist: rng.chance(0.6) },
+        9 | 10 => SOp::Fetch((0..rng.usize(4)).map(|_| mkid(1 + rng.below(nids))).collect()),
+        11..=13 => SOp::MergeOwned { dest: id, src: mkid(1 + rng.below(nids)), classes: classes(rng), remove: rng.chance(0.5), hist: rng.chance(0.6) },
         14 | 15 => {
-            let sid = if rng.chance(0.2) { 1 + rng.below(nids) } else { 100 + rng.below(50) };
+            let sid = mkid(if rng.chance(0.2) { 1 + rng.below(nids) } else { 100 + rng.below(50) });
             if rng.chance(0.25) {
                 // a merge over two classes in a fixed order whose SECOND class makes optimize fail: the first class must
                 // be rolled back as well
@@ -360,7 +374,7 @@ fn gen_op(rng: &mut Rng, nids: u64) -> SOp {
         }
         16 => SOp::Lookup(match rng.usize(3) {
             0 => WLookup::CounterAtLeast(rng.range(0, 4)),
-            1 => WLookup::HistoryContains(1 + rng.below(nids)),
+            1 => WLookup::HistoryContains(mkid(1 + rng.below(nids))),
             _ => WLookup::HasClass(rng.usize(3) as u64),
         }),
         17 => SOp::FindUsable,
@@ -378,7 +392,7 @@ fn gen_op(rng: &mut Rng, nids: u64) -> SOp {
 /// Read-only operations take `&self`: several threads may use them at the same time (the trackers do, through a read
 /// lock). On a quiescent store every such call has exactly one right answer - the model's - whoever else is reading.
 fn concurrent_readers(st: &Store, m: &MStore, nids: u64, seed: u64) -> Option<Value> {
-    let queries: Vec<WLookup> = (0..4i64).map(WLookup::CounterAtLeast).chain((1..=nids).map(WLookup::HistoryContains)).chain((0..3u64).map(WLookup::HasClass)).collect();
+    let queries: Vec<WLookup> = (0..4i64).map(WLookup::CounterAtLeast).chain((1..=nids).map(|x| WLookup::HistoryContains(mkid(x)))).chain((0..3u64).map(WLookup::HasClass)).collect();
     let expect: Vec<BTreeSet<(u64, u8)>> = queries.iter().map(|q| m.tracks.values().filter(|t| lookup_model(q, t)).map(|t| (t.id, t.attrs.status_code())).collect()).collect();
     let total = m.tracks.len();
     let bad: std::sync::Mutex<Option<Value>> = std::sync::Mutex::new(None);
@@ -467,7 +481,7 @@ fn main() {
     let env = Env { plan: FaultPlan::new(), mplan: FaultPlan::new(), notif: CountingNotifier::default(), cap: 4 };
     let alpha = small_alphabet();
     let a = alpha.len() as u64;
-    rep.note("rule", json!(format!("two workloads. (1) exhaustive: every operation sequence of length <= L over a small alphabet of {} operations (ids 1..3, classes 0..1, two observation values, poison observations that make optimize fail, owned / external / non-blocking merges incl. same-track and missing ids, fetch, lookup, find_usable, clear), shards 1 and 2; L = 2 in the quick tier plus a random sample of length-3 sequences, L = 3 complete in the thorough tier. (2) random sequences of 50..400 operations over 8 ids, 3 classes, shards 1..5. After EVERY operation the return value is compared with a sequential model (a map id -> track whose callbacks are the workload's own) and every shard's contents are read through get_store() and compared track by track (attributes, observations per class, merge history, metric state), with id % n placement and per-shard counts. add() on a missing id is additionally compared with new_track(id)...build() + add_track in a scratch store. In the random sequences every ~40th step four threads issue lookup (all query kinds) / shard_stats concurrently (the &self operations) against the quiescent store; each call must return the answer of the model. Non-trivial: sequences in which at least one merge or failing callback occurs; distinct by sequence hash.", a)));
+    rep.note("rule", json!(format!("two workloads. (1) exhaustive: every operation sequence of length <= L over a small alphabet of {} operations (ids 1..3, classes 0..1, two observation values, poison observations that make optimize fail, owned / external / non-blocking merges incl. same-track and missing ids, fetch, lookup, find_usable, clear), shards 1 and 2; L = 2 in the quick tier plus a random sample of length-3 sequences, L = 3 complete in the thorough tier. (2) random sequences of 50..400 operations over 8 ids (in half of the sequences mapped injectively onto wide u64 ids: 2^32+x, x<<32|x, hashed, u64::MAX-x, x<<33), 3 classes, shards 1..5. After EVERY operation the return value is compared with a sequential model (a map id -> track whose callbacks are the workload's own) and every shard's contents are read through get_store() and compared track by track (attributes, observations per class, merge history, metric state), with id % n placement and per-shard counts. add() on a missing id is additionally compared with new_track(id)...build() + add_track in a scratch store. In the random sequences every ~40th step four threads issue lookup (all query kinds) / shard_stats concurrently (the &self operations) against the quiescent store; each call must return the answer of the model. Non-trivial: sequences in which at least one merge or failing callback occurs; distinct by sequence hash.", a)));
     rep.note("assumptions", json!(["workload callbacks are deterministic functions of their arguments (data-driven failures)", "merge_external_noblock: the result is awaited before the next operation, or the future is dropped at once and a blocking lookup serves as barrier"]));
     // ---------- exhaustive part
     let full3 = cli.thorough() && !cli.small;
@@ -546,6 +560,11 @@ fn main() {
         let len = if cli.small { 30 } else { 50 + rng.usize(351) };
         let shards = 1 + rng.usize(5);
         let nids = 2 + rng.below(7);
+        let shape = if rng.chance(0.5) { 0 } else { 1 + rng.usize(5) as u8 };
+        ID_SHAPE.with(|c| c.set(shape));
+        if shape != 0 {
+            rep.count("random_sequences_with_wide_ids(>= 2^32)");
+        }
         let ops: Vec<SOp> = (0..len).map(|_| gen_op(&mut rng, nids)).collect();
         rep.eval();
         rep.count("random_sequences_executed");
